@@ -78,7 +78,8 @@ func runControls(id, repo, knownPath, seedsDir string) (lines []string, applied,
 				missed++
 				lines = append(lines, name+": MISSED (the seeded fault applies to this tree and the rules of "+id+" stay silent)")
 			default:
-				lines = append(lines, fmt.Sprintf("%s: control run failed with exit code %d", name, code))
+				missed++ // a checker that falls over has not reported the fault
+				lines = append(lines, fmt.Sprintf("%s: MISSED (control run failed with exit code %d)", name, code))
 			}
 		}()
 	}
@@ -218,7 +219,8 @@ func runNegativeControls(id, repo, knownPath, dir string) (lines []string, appli
 				}
 				lines = append(lines, name+": FALSE ALARM (behaviour-preserving change reported: "+first+")")
 			default:
-				lines = append(lines, fmt.Sprintf("%s: control run failed with exit code %d", name, code))
+				alarms++ // a checker that falls over on a behaviour-preserving change is not silent on it
+				lines = append(lines, fmt.Sprintf("%s: FALSE ALARM (control run failed with exit code %d)", name, code))
 			}
 		}()
 	}
